@@ -114,6 +114,47 @@ def o_outcome_stable(w, tr):
     return out
 
 
+def o_state_forward(w, tr):
+    """C17 end-to-end (scenarios with the coordinator's fields instrumented): per transfer the
+    timeline of `_status` writes never leaves a terminal state except for the final step's success,
+    and the error reported is the first one recorded."""
+    out = []
+    if w.sched.outcome != 'ok' or not w.scn.get('fields'):
+        return out
+    if any(s.reenter for subs in w.subs.values() for s in subs):
+        return out
+    TERMINAL = ('success', 'failed', 'cancelled')
+    st, ex = {}, {}
+    for e in tr.ev('field'):
+        if e[3]['cls'] != 'TransferCoordinator' or e[3]['oid'] is None:
+            continue
+        if e[3]['name'] == '_status':
+            st.setdefault(e[3]['oid'], []).append((e[0], e[3]['value']))
+        elif e[3]['name'] == '_exception':
+            ex.setdefault(e[3]['oid'], []).append((e[0], e[3]['value']))
+    for idx, tl in st.items():
+        for (s0, a), (s1, b) in zip(tl, tl[1:]):
+            if a in TERMINAL and b != 'success' and b != a:
+                out.append((f'C17:e2e:terminal-status-overwritten:{a}->{b}',
+                            f'transfer {idx}: status {a!r} (step {s0}) overwritten by {b!r} (step {s1}); timeline {[v for _, v in tl]}'))
+                break
+            if a in TERMINAL and b not in TERMINAL:
+                out.append((f'C17:e2e:left-terminal-state:{a}->{b}', f'transfer {idx}: timeline {[v for _, v in tl]}'))
+                break
+    for idx, oc in w.outcomes.items():
+        first = next((v for _, v in ex.get(idx, []) if v is not None), None)
+        if first is None:
+            continue
+        fin = final_outcome(w, idx) or oc
+        if fin[0] == 'exc':
+            got = f'{type(fin[1]).__name__}({fin[1]})'
+            if got != first:
+                out.append(('C17:e2e:later-error-reported',
+                            f'transfer {idx}: first error recorded was {first} but result() raises {got}; '
+                            f'recorded: {[v for _, v in ex[idx]]}'))
+    return out
+
+
 def final_outcome(w, idx):
     aud = getattr(w, 'audit', None)
     if aud and idx in aud and aud[idx][0] != 'notdone':
@@ -1038,7 +1079,7 @@ def o_bandwidth(w, tr):
 
 
 ALL_ORACLES = [o_termination, o_exact, o_streaming_order, o_failure_truth, o_mpu,
-               o_callbacks, o_progress, o_limits, o_memory, o_semaphores, o_barrier, o_isolation, o_bandwidth, o_outcome_stable,
+               o_callbacks, o_progress, o_limits, o_memory, o_semaphores, o_barrier, o_isolation, o_bandwidth, o_outcome_stable, o_state_forward,
                o_cancel, o_fs]
 
 
